@@ -314,6 +314,42 @@ func VH_stmt(ctx int, depth int, limit int) {
 	vpReset(limit, 0, true)
 	stLine = 0
 	s := genStmt(depth, false)
+	runStmtProgram(ctx, s)
+}
+
+// VH_emptyArm (C05): arms and bodies that are empty blocks. An empty arm is still the arm that
+// was chosen: nothing runs, and in particular not the other arm.
+func VH_emptyArm(ctx int, limit int) {
+	vpReset(limit, 0, true)
+	stLine = 0
+	empty := func() ast.Stmt { return &ast.BlockStmt{} }
+	var s ast.Stmt
+	switch verifChoice(6) {
+	case 0:
+		s = &ast.IfStmt{Condition: stProbe(), ThenBranch: empty(), ElseBranch: genStmt(0, false)}
+	case 1:
+		c := stProbe()
+		th := genStmt(0, false)
+		s = &ast.IfStmt{Condition: c, ThenBranch: th, ElseBranch: empty()}
+	case 2:
+		c1 := stProbe()
+		c2 := stProbe()
+		t2 := genStmt(0, false)
+		s = &ast.IfStmt{Condition: c1, ThenBranch: empty(), ElseBranch: &ast.IfStmt{Condition: c2, ThenBranch: t2, ElseBranch: genStmt(0, false)}}
+	case 3:
+		c1 := stProbe()
+		t1 := genStmt(0, false)
+		c2 := stProbe()
+		s = &ast.IfStmt{Condition: c1, ThenBranch: t1, ElseBranch: &ast.IfStmt{Condition: c2, ThenBranch: empty(), ElseBranch: genStmt(0, false)}}
+	case 4:
+		s = &ast.While{Condition: stProbe(), Body: empty()}
+	default:
+		s = &ast.IfStmt{Condition: stProbe(), ThenBranch: empty()}
+	}
+	runStmtProgram(ctx, s)
+}
+
+func runStmtProgram(ctx int, s ast.Stmt) {
 	tail := &ast.ExpressionStatement{Expression: stProbe()}
 	body := []ast.Stmt{s, tail}
 	rfReset()
